@@ -146,7 +146,7 @@ func vq2GenMutations(t *rapid.T, m *vq2Model, cols []uint64, c *vkit.Case) []str
 			ops = append(ops, o)
 		case "clearbits":
 			r, ok := pickRow()
-			if !ok || f.NoStd {
+			if !ok {
 				continue
 			}
 			cs := f.rowStd(r)
